@@ -48,6 +48,15 @@ pub fn colliding_keys(k: &[u8; 40]) -> Vec<[u8; 40]> {
         r.rotate_left(w);
         v.push(r);
     }
+    // the same head or the same tail (a fingerprint or comparison over part of the key): keys that differ from `k` only in
+    // the last 20 / last 8 / last byte, or only in the first 20 / first byte
+    for (from, to) in [(20usize, 40usize), (32, 40), (39, 40), (0, 20), (0, 1), (16, 24)] {
+        let mut x = *k;
+        for b in x[from..to].iter_mut() {
+            *b = b.wrapping_mul(3).wrapping_add(0x6B);
+        }
+        v.push(x);
+    }
     let mut p = *k;
     p[3] = p[3].wrapping_add(9);
     p[29] = p[29].wrapping_sub(9);
